@@ -31,6 +31,9 @@ ls.for_prop('C19',
             head=['_t0 = trace_len()', '_completed0 = completed'],
             tail=['_stores = events_since(_t0, "sub-store")',
                   'oblige("sub-operation-once", len(_stores) == 1 and _stores[0][1] is data_set)',
+                  '_looked = events_since(_t0, "sub-get-scu")',
+                  'oblige("storage-service-of-the-instances-sop-class", len(_looked) == 1 and '
+                  '_looked[0][1] == data_set.SOPClassUID and _looked[0][2] is assoc)',
                   '_sent = events_since(_t0, "send")',
                   'oblige("one-pending-response", len(_sent) == 1)',
                   'oblige("pending-status", len(_sent) != 1 or sent_field(_sent[0], "status") == 0xFF00)',
